@@ -7,21 +7,28 @@ import subprocess as sp
 from .. import tlc, drive, glue, layouts, project
 from ..core import Machinery
 
-DESIGN_CFG = ("INIT Init\nNEXT Next\nCONSTANTS NLines = %d\n NText = %d\n S2 = %s\nINVARIANT NoStaleOccurrence\nINVARIANT OnlySpansChange\nINVARIANT MissingPatternRefused\n"
+DESIGN_CFG = ("INIT Init\nNEXT Next\nCONSTANTS NLines = %d\n NText = %d\n S2 = %s\n S20 = %s\nINVARIANT NoStaleOccurrence\nINVARIANT OnlySpansChange\nINVARIANT MissingPatternRefused\n"
               "INVARIANT DiffRoundTrip\nINVARIANT SplitJoinIdentity\nINVARIANT SepPrecedence\nCHECK_DEADLOCK FALSE\n")
+
+
+SELFTEST_CFG = "INIT Init\nNEXT Next\nCONSTANTS NLines = %d\n NText = %d\n S2 = %s\n S20 = %s\nINVARIANT NoStaleOccurrence\nCHECK_DEADLOCK FALSE\n"
 
 
 def design(ctx):
     nl, nt = ctx.pick((3, 7), (4, 9))
-    res = tlc.run(tlc.module_text("mc/MC_C03.tla"), DESIGN_CFG % (nl, nt, "FALSE"), name="MC_C03", workers=16, timeout=3400, xmx="12g")
-    ctx.add_design(res, "MC_C03 layouts of up to %d lines x 11 line kinds x 3 separators x trailing; all texts over {a,CR,LF} up to %d" % (nl, nt))
+    res = tlc.run(tlc.module_text("mc/MC_C03.tla"), DESIGN_CFG % (nl, nt, "FALSE", "FALSE"), name="MC_C03", workers=16, timeout=3400, xmx="12g")
+    ctx.add_design(res, "MC_C03 layouts of up to %d lines x 13 line kinds x 3 separators x trailing; all texts over {a,CR,LF} up to %d" % (nl, nt))
     if res.violation:
         ctx.violation(dict(clause="design:" + res.violation), case=dict(state=res.trace[-1:]), check="design")
     # self-test of the invariants: the repaired defect S2 must be rejected by NoStaleOccurrence
-    res2 = tlc.run(tlc.module_text("mc/MC_C03.tla"), DESIGN_CFG % (2, 1, "TRUE"), name="MC_C03", workers=4, timeout=600)
+    res2 = tlc.run(tlc.module_text("mc/MC_C03.tla"), SELFTEST_CFG % (2, 1, "TRUE", "FALSE"), name="MC_C03", workers=4, timeout=600)
     if res2.violation != "NoStaleOccurrence":
         raise Machinery("MC_C03 self-test: the last-match-wins variant was not rejected (%s)" % (res2.violation or res2.error))
-    ctx.count("design_selftest_rejected_variants", 1)
+    # ... and so must the repaired defect S20 (a match touching an earlier one is suppressed)
+    res3 = tlc.run(tlc.module_text("mc/MC_C03.tla"), SELFTEST_CFG % (2, 1, "FALSE", "TRUE"), name="MC_C03", workers=4, timeout=600)
+    if res3.violation != "NoStaleOccurrence":
+        raise Machinery("MC_C03 self-test: the touching-match-suppressed variant was not rejected (%s)" % (res3.violation or res3.error))
+    ctx.count("design_selftest_rejected_variants", 2)
 
 
 def run_layout(job):
